@@ -71,6 +71,13 @@ FREE = {
     "quick": dict(runs=150, min_events=10, max_events=70),
     "thorough": dict(runs=1500, min_events=10, max_events=150),
 }
+# long stalls: a few free runs with thousands of events, so that a subscriber that stops reading (or never reads)
+# falls thousands of events behind ("however slowly the subscriber reads"; a bounded queue in place of the
+# unbounded one shows as a blocked emission / a starved second subscriber)
+LONG = {
+    "quick": dict(runs=8, min_events=1500, max_events=3000),
+    "thorough": dict(runs=40, min_events=3000, max_events=30000),
+}
 # Stop() under load (saturating source that runs ahead, fast consumers): a large batch, screened by the
 # driver (see TestVerifBlockNtfnsFree), because the window of the shutdown gap is ~1e-5 per run
 STRESS = {
@@ -184,6 +191,15 @@ def run(prop_id, tier, seed, replay=None):
             acc.consume(ofn, "free-", None, fs)
             os.remove(ofn)
             extra["free_running"] = fs.summary()
+            lc = LONG[tier]
+            ofn = os.path.join(sc, "long.ndjson")
+            run_driver(binary, "TestVerifBlockNtfnsFree", pfs[0], ofn, sc,
+                       {"VERIF_SEED": str(seed + 7919), "VERIF_FREE_RUNS": str(lc["runs"]),
+                        "VERIF_FREE_MIN_EVENTS": str(lc["min_events"]), "VERIF_FREE_MAX_EVENTS": str(lc["max_events"])})
+            ls = _FreeStats()
+            acc.consume(ofn, "long-", None, ls)
+            os.remove(ofn)
+            extra["free_running_long_stalls"] = ls.summary()
             stc = STRESS[tier]
             ts = time.time()
             ofn = os.path.join(sc, "stress.ndjson")
